@@ -145,6 +145,12 @@ Lemma sc_log_load st p : same_core st (log_load st p).
 Proof. repeat split. Qed.
 Lemma sc_add_compiled st p : same_core st (add_compiled st p).
 Proof. repeat split. Qed.
+Lemma sc_read_manifest fs st pk : same_core st (read_manifest fs st pk).
+Proof.
+  unfold read_manifest. destruct (mem_zs pk (compiled st)); [repeat split|].
+  destruct (fs_get fs pk) as [[]|]; try apply sc_log_load; repeat split.
+Qed.
+
 Lemma sc_log_event st a b c : same_core st (log_event st a b c).
 Proof. repeat split. Qed.
 Lemma sc_bump st f : same_core st (bump_counter st f).
@@ -450,9 +456,9 @@ Proof.
     + destruct (load_module_good st p HI) as [G R]. destruct (load_module fs rq st p) as [st1 r]. cbn [fst snd] in *.
       destruct r; try (split; [exact G|exact R]).
       destruct (IH st1 (proj1 G)) as [G2 R2]. split; [eapply good_trans; eassumption|exact R2].
-    + assert (HI1 : Inv (log_load st pk)) by (eapply same_core_inv; [apply sc_log_load|exact HI]).
+    + assert (HI1 : Inv (read_manifest fs st pk)) by (eapply same_core_inv; [apply sc_read_manifest|exact HI]).
       destruct (IH _ HI1) as [G2 R2]. split; [|exact R2].
-      eapply good_trans; [apply good_sc; [apply sc_log_load|exact HI]|exact G2].
+      eapply good_trans; [apply good_sc; [apply sc_read_manifest|exact HI]|exact G2].
 Qed.
 
 Lemma load_native_good st name : Inv st -> good st (fst (load_native nat_reg st name)).
@@ -476,6 +482,7 @@ Lemma load_native_run_good st name : Inv st -> good st (fst (load_native_run nat
 Proof.
   intro HI. unfold load_native_run.
   destruct (cache_get (native_cache st) name); [apply good_refl; exact HI|].
+  destruct (reuse_core nat_reg st name) as [m0|]; [cbn [fst]; apply good_sc; [apply sc_with_native|exact HI]|].
   pose proof (load_native_good st name HI) as G. destruct (load_native nat_reg st name) as [st1 r]. cbn [fst] in G.
   destruct r as [m| | | |]; try exact G.
   destruct (mem_zs (registered_name st1 m) (n_loader_throws nat_reg)); [exact G|].
